@@ -69,3 +69,34 @@ package diff
 //@   ensures [C04] src: c.newOrLostSrc == (old(c.newOrLostSrc) || otherSetLacks(p2pSrc(if isFirst then old(c.firstConn) else old(c.secondConn)), peersSet))
 //@   ensures [C04] dst: c.newOrLostDst == (old(c.newOrLostDst) || otherSetLacks(p2pDst(if isFirst then old(c.firstConn) else old(c.secondConn)), peersSet))
 //@   ensures [C04] sides: c.firstConn == old(c.firstConn) && c.secondConn == old(c.secondConn) && c.diffType == old(c.diffType)
+
+// ---------------------------------------------------------------------------------------------
+// The diff API returns a result or an error (C12, C13): a caller that gets a nil error can use the result
+// ---------------------------------------------------------------------------------------------
+
+// usable: a non-nil interface value that holds a non-nil *connectivityDiff
+//@ pred usableDiff(d ConnectivityDiff) = dyntype(d, *connectivityDiff) && unwrap(d, *connectivityDiff) != nil
+
+//@ func diffConnectionsLists
+//@   nosafety
+//@   modifies *
+//@   ensures [C12] resultOrError: res1 == nil ==> usableDiff(res0)
+
+//@ func (*DiffAnalyzer).computeDiffFromConnlistResults
+//@   nosafety
+//@   requires da != nil
+//@   modifies *
+//@   ensures [C12] resultOrError: res1 == nil ==> usableDiff(res0)
+
+// when the analysis has to stop, the pair handed back to the API caller is an error, or an (empty) usable result
+//@ func (*DiffAnalyzer).getConnlistAnalysis
+//@   nosafety
+//@   requires da != nil
+//@   modifies *
+//@   ensures [C12,C13] resultOrError: (res2 && res4 == nil) ==> usableDiff(res3)
+
+//@ func (*DiffAnalyzer).ConnDiffFromResourceInfos
+//@   nosafety
+//@   requires da != nil
+//@   modifies *
+//@   ensures [C12,C13] resultOrError: res1 == nil ==> usableDiff(res0)
